@@ -272,7 +272,14 @@ def api_scenario(rng):
             if rng.random() < 0.15:
                 n = 1 << 40
                 unb = True
-            prog.append("cfg %d cam=%s sto=%s n=%d avg=0 delay=%g" % (s, dev, dev, n, rng.choice([0, 0, 0, 0.5, 2])))
+            dcam = dsto = dev
+            if dev != "none" and rng.random() < (0.15 if wild else 0.07):
+                # a device that is enumerated but cannot be opened: the stream is rejected by this configure
+                if rng.random() < 0.5:
+                    dcam = "Bad"
+                else:
+                    dsto = "Bad"
+            prog.append("cfg %d cam=%s sto=%s n=%d avg=0 delay=%g" % (s, dcam, dsto, n, rng.choice([0, 0, 0, 0.5, 2])))
         prog.append("configure")
         cfg_unb[0] = unb
         if while_running:
